@@ -60,7 +60,7 @@ READABLE = {"": ["true"], "mem": ["false"], "stale": ["true", "false"]}
 
 def run(c):
     thorough = c.tier == "thorough"
-    c.go2coq_sources = ["filters.go", "filters_types.go", "filters_state.go", "filters_helpers.go", "filters_total2.go", "filters_walker.go"]   # private translator build: another family's generator cannot break this check
+    c.go2coq_sources = ["filters.go", "filters_types.go", "filters_state.go", "filters_helpers.go", "filters_total2.go", "filters_walker.go", "filters_reuse.go"]   # private translator build: another family's generator cannot break this check
     c.rule = ("one rule per (filter constructor instance | At() | Do() function, capture shape incl. comment-rule captures) with Report(`$x|$$`) and Suggest(`$x`), run under "
               "(TruncateLen, Go version, fresh/reused state) settings; evaluations count engine runs of one rule under one "
               "setting; a case is distinct by (instance, shape, setting) and non-trivial when the rule delivered reports")
@@ -166,6 +166,28 @@ def run(c):
                 key = (r["ctor"].split("/")[0], "product" if r["shape"].startswith("product") else r["shape"], r.get("file", ""))
                 observed[key] = observed.get(key, False) or bool(r.get("panic"))
         c.coverage["sweep_runs_%d" % state["n"]] = len(runs)
+        # ---- history sweep: a reusable state created at every point of an engine's history of Loads
+        hist = [r for r in rs if r.get("k") == "history"]
+        hmeta = [r for r in rs if r.get("k") == "history-meta"]
+        if not hmeta or hmeta[0]["reports"] < 150 or hmeta[0]["trunc"] < 20 or not any(r.get("reused") and r.get("reports") for r in hist):
+            c.obligation("harness-sanity:history-sweep", False, "the history sweep did not run (or ran fewer than 150 runs, fewer than 20 runs that panic in the documented way): %r" % hmeta)
+        for r in hist:
+            c.count()
+            inp = {"history of the engine": r["inst"], "RunContext.State": r["shape"],
+                   "rules_files": "harness/cmd/c07/history.go:histFiles (custom filters and Do() functions that call other functions of their file)",
+                   "target": "harness/cmd/c07/history.go:histTargetSrc"}
+            if r.get("reports"):
+                c.nontriv(("history", r["inst"], r["shape"]))
+            if r.get("load_err"):
+                c.obligation("harness-sanity:history-sweep", False, "%s: %s" % (r["inst"], r["load_err"]))
+                continue
+            if r.get("panic"):
+                c.fail("oracle", "Run panics with a reusable state that was created at another point of the engine's history of Loads" if r.get("reused")
+                       else "Run panics", input=inp, observed=r["panic"], expected="Run returns")
+            for b in r.get("bad") or []:
+                c.fail("oracle", "malformed report: " + b["what"] if "differ" not in b["what"] else b["what"], input=inp, observed=b.get("detail") or b,
+                       expected="the reports of a fresh engine / a non-nil node inside the file, group set")
+        c.coverage["history_runs_%d" % state["n"]] = hmeta[0]["reports"] if hmeta else 0
         if not gen_ok:
             return
         keys = sorted(observed)
